@@ -1,5 +1,6 @@
 #!/usr/bin/env python3
 """regenerate /verif/MANIFEST.json from vlib/props.py"""
+# label-consistency: a clause labelled [Cxx.…] is only evaluated by the check of Cxx if its unit is listed for Cxx
 import json, os, sys
 ROOT = os.path.dirname(os.path.dirname(os.path.abspath(__file__)))
 sys.path.insert(0, ROOT)
@@ -37,3 +38,25 @@ m = dict(
 )
 json.dump(m, open(os.path.join(ROOT, 'MANIFEST.json'), 'w'), indent=1)
 print('wrote MANIFEST.json with', len(checks), 'checks')
+
+
+def _label_consistency():
+    import re, glob, os, sys
+    here = os.path.dirname(os.path.dirname(os.path.abspath(__file__)))
+    sys.path.insert(0, here)
+    from vlib.props import PROPS, UNITS
+    LABEL = re.compile(r'\[(C\d\d)\.[^\]]+\]')
+    t2u = {v['template']: k for k, v in UNITS.items()}
+    bad = []
+    for path in sorted(glob.glob(os.path.join(here, 'units', '*.rs'))):
+        b = os.path.basename(path)
+        txt = open(path).read()
+        us = [t2u[b]] if b in t2u else [u for u, v in UNITS.items() if ('//@@ include ' + b) in open(os.path.join(here, 'units', v['template'])).read()]
+        for u in us:
+            for p_ in sorted(set(LABEL.findall(txt))):
+                if u not in PROPS[p_].get('units', []):
+                    bad.append('label %s in unit %s (%s) but the unit is not listed for %s' % (p_, u, b, p_))
+    if bad:
+        print('\n'.join(bad)); raise SystemExit('label-consistency violated')
+
+_label_consistency()
